@@ -276,9 +276,13 @@ def _groups(R, ua):
                         % "/".join(vns), [ua.loc(body)])
 
 
+UA_KEEP = r"AggregateExecutionEngine::(get_group|get_group_value|get_group_aggregator|validate_group_key)$|GroupAggregator::|" \
+          r"ExpressionExecutionEngine::|aggregate_execution::add_to_sum$|^sqlgrep::model::"
+
+
 def _minmax(R, rid):
     P = R.prog
-    ua = R.need_fn(ENGINE + "update_aggregate")
+    ua = PR.view(P, R.need_fn(ENGINE + "update_aggregate"), keep=UA_KEEP)
     asw = A.enum_switches(ua, "model::Aggregate")
     if not asw:
         R.violation(rid, "update_aggregate|no-match", "update_aggregate does not dispatch on the aggregate", [ua.loc()])
@@ -305,7 +309,8 @@ def _minmax(R, rid):
                     "MIN / MAX fold through Value::modify_same_type_numeric_nullable, whose catch-all arm silently ignores TEXT, BOOLEAN, TIMESTAMP "
                     "and array values: the first value seen is kept (wrong result, and dependent on line order)", [ua.loc(tgt[0])])
         return
-    lt = [c for c in ua.calls if c.bb in reg and re.search(r"PartialOrd::(lt|gt|le|ge)$|Ord>?::(cmp|min|max)$", short(c.name)) and c.targs[:1] == [V]]
+    lt = [c for c in ua.calls if c.bb in reg and re.search(r"PartialOrd(<.*>)?( for &A)?>?::(lt|gt|le|ge|partial_cmp)$|Ord>?::(cmp|min|max)$", short(c.name))
+          and ((c.func.get("res_targs") or c.targs)[:1] == [V] or c.targs[:1] in ([V], ["&" + V]))]
     meths = sorted(set(short(c.name).split("::")[-1] for c in lt))
     if set(meths) >= {"lt", "gt"} or set(meths) >= {"min", "max"} or "cmp" in meths:
         # both operands take part
